@@ -591,4 +591,16 @@ def getConstantsF25 {V : Type} (mid : V → V → V) (defaults : List (String ×
     | none => some env'
     | some pv => some (fun k => if k = "rp" then evalP env' pv else env' k)
 
+/-! ## 5. the folder of a run (`setupSave`, savingTools.py:11-19)
+
+`i = 0; while os.path.isdir("simulation_i"): i += 1` — `isdir` is the state of the working directory. -/
+
+/-- the search for the first unused folder name, with fuel -/
+def firstFree (isdir : Nat → Bool) : Nat → Nat → Option Nat
+  | 0, _ => none
+  | fuel + 1, i => if isdir i then firstFree isdir fuel (i + 1) else some i
+
+/-- "the runs are numbered consecutively, so the next index is the number of existing ones" (seeded change C18-21): not the code -/
+def countFree (existing : List Nat) : Nat := existing.length
+
 end PygyroVerif.Ckpt
